@@ -1,4 +1,4 @@
 SPECIFICATION Spec
 CONSTANTS
   Emit = TRUE
-INVARIANTS CheckNeverWrites ExitIffAccepted OnlyOnSuccess PrintWriteCheckConsistent ReportNamesExactlyFailures SourceIndependent PresentationIndependent EnvironmentIndependent
+INVARIANTS CheckNeverWrites ExitIffAccepted OnlyOnSuccess PrintWriteCheckConsistent ReportNamesExactlyFailures SourceIndependent PresentationIndependent EnvironmentIndependent CheckWins
